@@ -117,3 +117,81 @@ func VerifH_C13_wholeFileCorruption() {
 	vCover("corrupted")
 }
 
+
+// After a read has reported a corrupted page, trying again does not turn into
+// wrong data: a SeekToRow back to the rows of that page followed by ReadPage
+// reports the corruption again (or returns those very rows), it never returns
+// the rows of the following page in their place.
+func VerifH_C13_retryAfterCorruption() {
+	vUnwind(1 << 16)
+	rows := []verifRecH{{ID: 1, Name: "ab", Tags: []int32{1, 2}}, {ID: 2, Name: "c"}, {ID: 3, Name: "ab", Tags: []int32{7}}, {ID: 4, Name: "d"}}
+	buf := new(bytes.Buffer)
+	w := NewGenericWriter[verifRecH](buf, PageBufferSize(1)) // one page per row
+	for i := range rows {
+		if _, err := w.Write(rows[i : i+1]); err != nil {
+			vAssert(false, "rows are accepted")
+			return
+		}
+	}
+	if err := w.Close(); err != nil {
+		vAssert(false, "file closes")
+		return
+	}
+	data := append([]byte(nil), buf.Bytes()...)
+	f0, err := OpenFile(bytes.NewReader(data), int64(len(data)))
+	if err != nil {
+		vAssert(false, "file opens")
+		return
+	}
+	// the id column: page k holds row k; corrupt one byte of page k's body
+	oi, err := f0.RowGroups()[0].ColumnChunks()[0].OffsetIndex()
+	if err != nil || oi.NumPages() != len(rows) {
+		vAssert(false, "one page per row")
+		return
+	}
+	k := vChoose("page", 0, len(rows)-2)
+	end := oi.Offset(k) + oi.CompressedPageSize(k)
+	pos := end - 1 - int64(vChoose("byteFromEnd", 0, 7)) // the 8 value bytes at the end of the page
+	mask := vU8("mask")
+	vAssume(mask != 0)
+	data[pos] ^= mask
+	f, err := OpenFile(bytes.NewReader(data), int64(len(data)))
+	if err != nil {
+		vAssert(false, "the footer is intact, the file opens")
+		return
+	}
+	pages := f.RowGroups()[0].ColumnChunks()[0].Pages()
+	defer pages.Close()
+	if vChoose("seekFirst", 0, 1) == 1 {
+		if err := pages.SeekToRow(int64(k)); err != nil {
+			vAssert(errors.Is(err, ErrCorrupted), "a seek fails only with a corruption error")
+			return
+		}
+	} else {
+		for i := 0; i < k; i++ {
+			p, err := pages.ReadPage()
+			if err != nil {
+				vAssert(false, "pages before the altered one are readable")
+				return
+			}
+			Release(p)
+		}
+	}
+	p, err := pages.ReadPage()
+	vAssert(err != nil && errors.Is(err, ErrCorrupted) && p == nil, "the altered page is reported as corrupted")
+	// try again
+	if err := pages.SeekToRow(int64(k)); err != nil {
+		vAssert(errors.Is(err, ErrCorrupted), "a seek fails only with a corruption error")
+		return
+	}
+	p, err = pages.ReadPage()
+	if err != nil {
+		vAssert(errors.Is(err, ErrCorrupted), "the retry reports the corruption again")
+	} else {
+		vals := make([]Value, 4)
+		n, _ := p.Values().ReadValues(vals)
+		vAssert(n == 1 && vals[0].Int64() == rows[k].ID, "a retry that returns data returns the rows asked for")
+		Release(p)
+	}
+	vCover("retry")
+}
